@@ -1002,28 +1002,40 @@ func (r *Runtime) stringproto_toUpperCase(call FunctionCall) Value {
 	return s.toUpper()
 }
 
+// trimString removes leading and/or trailing WhiteSpace and LineTerminator code units. It works on UTF-16 code units
+// (all white space characters are in the BMP), so that invalid surrogate pairs are left intact.
+func trimString(s String, start, end bool) String {
+	l := s.Length()
+	from, to := 0, l
+	if start {
+		for from < to && strings.ContainsRune(parser.WhitespaceChars, rune(s.CharAt(from))) {
+			from++
+		}
+	}
+	if end {
+		for to > from && strings.ContainsRune(parser.WhitespaceChars, rune(s.CharAt(to-1))) {
+			to--
+		}
+	}
+	if from == 0 && to == l {
+		return s
+	}
+	return s.Substring(from, to)
+}
+
 func (r *Runtime) stringproto_trim(call FunctionCall) Value {
 	r.checkObjectCoercible(call.This)
-	s := call.This.toString()
-
-	// TODO handle invalid UTF-16
-	return newStringValue(strings.Trim(s.String(), parser.WhitespaceChars))
+	return trimString(call.This.toString(), true, true)
 }
 
 func (r *Runtime) stringproto_trimEnd(call FunctionCall) Value {
 	r.checkObjectCoercible(call.This)
-	s := call.This.toString()
-
-	// TODO handle invalid UTF-16
-	return newStringValue(strings.TrimRight(s.String(), parser.WhitespaceChars))
+	return trimString(call.This.toString(), false, true)
 }
 
 func (r *Runtime) stringproto_trimStart(call FunctionCall) Value {
 	r.checkObjectCoercible(call.This)
-	s := call.This.toString()
-
-	// TODO handle invalid UTF-16
-	return newStringValue(strings.TrimLeft(s.String(), parser.WhitespaceChars))
+	return trimString(call.This.toString(), true, false)
 }
 
 func (r *Runtime) stringproto_substr(call FunctionCall) Value {
